@@ -223,3 +223,24 @@ Qed.
 
 Lemma thread_stack_is_source mems t : thread_stack mems t = gen_thread_stack mems t.
 Proof. unfold thread_stack, gen_thread_stack, or_else_optz. destruct (t_stack t); [reflexivity|]. destruct (mem_at mems (t_sbase t)); reflexivity. Qed.
+
+(* ------------------------------------------------------------------ which values two consulted tables share *)
+(* Where the dispatch consults one enumeration before another, a value in both is decided by the ORDER.  The shared values
+   are pinned here on the regenerated tables: a new enumeration value that shadows a later table (or a refinement arm keyed
+   on it) changes these lists. *)
+Definition overlap (a b : list Z) : list Z := filter (gen_mem b) a.
+Definition facility_decomposable (v : Z) : bool :=
+  negb (Z.land v 4026531840 =? 0) && gen_mem MEM_WinErrorFacilityWindows (Z.shiftr (Z.land v 268369920) 16) &&
+  gen_mem MEM_WinErrorWindows (Z.land v 65535).
+Lemma dispatch_overlaps :
+  overlap MEM_ExceptionCodeWindows MEM_WinErrorWindows = [] /\
+  overlap MEM_ExceptionCodeWindows MEM_NtStatusWindows =
+    [2147483649; 2147483650; 2147483651; 2147483652; 3221225477; 3221225478; 3221225480; 3221225501; 3221225509; 3221225510;
+     3221225612; 3221225613; 3221225614; 3221225615; 3221225616; 3221225617; 3221225618; 3221225619; 3221225620; 3221225621;
+     3221225622; 3221225725; 3221225876] /\
+  overlap MEM_WinErrorWindows MEM_NtStatusWindows =
+    [0; 1; 2; 3; 63; 128; 191; 192; 255; 259; 266; 267; 275; 276; 277; 278; 288; 298; 299; 300; 301; 302; 303; 304; 514; 534] /\
+  filter facility_decomposable (MEM_ExceptionCodeWindows ++ MEM_WinErrorWindows ++ MEM_NtStatusWindows) = [] /\
+  overlap MEM_ExceptionCodeMacBadAccessKernType
+          (MEM_ExceptionCodeMacBadAccessArmType ++ MEM_ExceptionCodeMacBadAccessPpcType ++ MEM_ExceptionCodeMacBadAccessX86Type) = [].
+Proof. vm_compute. repeat split. Qed.
